@@ -20,7 +20,9 @@ match-between-runs row).  Python dicts are modelled by their denotation "the las
 functions perform the same `+=` / `.add` / assignment on the same slot as the code.
 
 `do_quantification` hard-codes `discard_shared_peptides = True`; only that setting is modelled.
-The experimental-design override (`--experimental_design_file` / `--file_list_file`) is not modelled.
+The experimental-design override (`--experimental_design_file` / `--file_list_file`) is the last
+section: `quantifyDesign` (experiment list in design order, experiment and fraction of every parsed
+row replaced through the raw-file mapping).
 -/
 import PgFdr.Model.Basic
 import PgFdr.Model.C17
@@ -337,5 +339,84 @@ def quantify (rows : List Row) (groups : List (List String)) (level : Rat)
   match silacChannels (nSilac rows) with
   | .error e => .error e
   | .ok S => .ok (quantifyWith S rows groups level ibaq)
+
+/-! ### experimental design / file list (`--experimental_design_file`, `--file_list_file`)
+
+`quantification.get_experimental_design` hands `add_precursor_quants` a data frame; the model starts from
+its normalised lines (`parsers.normalize_experimental_design`: `Name` = file stem, empty `Experiment` =
+the name, empty `Fraction` = -1; the pandas parsing itself is restated by the harness).  With a design
+
+* `protein_group_results.experiments = experimental_design["Experiment"].unique().tolist()` — the
+  experiments in the order of their first line, NOT sorted, also those without any evidence row;
+* every row the parser yields gets `experiment, fraction = file_mapping[raw_file]` (`KeyError` for a raw
+  file without a line; rows without proteins are never yielded, so their raw file is not looked up);
+* a design without lines gives an empty (falsy) mapping: the run is the run without a design;
+* `get_file_mapping` refuses two lines with the same name (`DataFrame.to_dict(orient="index")`). -/
+
+/-- one line of the normalised design: raw file (stem), experiment, fraction (as `str()` prints the value
+    pandas holds) -/
+structure DesignLine where
+  name : String
+  experiment : String
+  fraction : String
+
+/-- `experimental_design["Experiment"].unique().tolist()`: first occurrences in design order -/
+def designExperiments (d : List DesignLine) : List String :=
+  d.foldl (fun s l => setAdd s l.experiment) []
+
+/-- `file_mapping[raw_file]` (the names are pairwise different when this is consulted) -/
+def fileMapping (d : List DesignLine) (raw : String) : Option DesignLine :=
+  d.find? (fun l => l.name == raw)
+
+def allDistinct : List String → Bool
+  | [] => true
+  | x :: t => !t.contains x && allDistinct t
+
+/-- the override of one evidence row (`raw file`, row): rows the parser does not yield are left alone -/
+def overrideRow (d : List DesignLine) (x : String × Row) : Except String Row :=
+  if (prots x.2).isEmpty then .ok x.2
+  else
+    match fileMapping d x.1 with
+    | none => .error "raw_file_not_in_design"
+    | some l => .ok { x.2 with experiment := l.experiment, fraction := l.fraction }
+
+/-- all rows in file order; the first row whose raw file has no line raises -/
+def overrideRows (d : List DesignLine) : List (String × Row) → Except String (List Row)
+  | [] => .ok []
+  | x :: t =>
+    match overrideRow d x with
+    | .error e => .error e
+    | .ok r =>
+      match overrideRows d t with
+      | .error e => .error e
+      | .ok rs => .ok (r :: rs)
+
+/-- `quantifyWith` with the experiment list as a parameter (`quantifyWith S rows … =
+    quantifyWithExps (experiments rows) S rows …`, by `rfl`) -/
+def quantifyWithExps (exps : List String) (S : Nat) (rows : List Row) (groups : List (List String))
+    (level : Rat) (ibaq : List (String × Nat)) : Output :=
+  let T := nTmt rows
+  let c := cutoffOf rows groups level
+  { experiments := exps
+    nSilac := nSilac rows
+    nTmt := T
+    peps := pepList rows groups
+    cutoff := c
+    attached := (List.range groups.length).map (attached rows groups)
+    groups := (keptIdx rows groups).map (fun g =>
+      groupOut exps S T c ibaq (groups.getD g []) (retain c (attached rows groups g))) }
+
+/-- the whole sequence with an experimental design / file list: `rows` = (raw file, evidence row) -/
+def quantifyDesign (design : List DesignLine) (rows : List (String × Row)) (groups : List (List String))
+    (level : Rat) (ibaq : List (String × Nat)) : Except String Output :=
+  if design.isEmpty then quantify (rows.map (·.2)) groups level ibaq
+  else if !allDistinct (design.map (·.name)) then .error "design_duplicate_name"
+  else
+    match overrideRows design rows with
+    | .error e => .error e
+    | .ok rows' =>
+      match silacChannels (nSilac rows') with
+      | .error e => .error e
+      | .ok S => .ok (quantifyWithExps (designExperiments design) S rows' groups level ibaq)
 
 end PgFdr.C12
